@@ -200,13 +200,13 @@ mutual
     | .bin op _ a b, h => by
         rw [Canon] at h
         rw [Renders]
-        refine ⟨_, _, slot_wrapP ff pf (binPrec op) a (renders_toks a h.1),
-          slot_wrapP ff pf (binPrec op + 1) b (renders_toks b h.2), ?_⟩
+        refine ⟨_, _, slot_wrapP ff pf (leftMin op) a (renders_toks a h.1),
+          slot_wrapP ff pf (rightMin op) b (renders_toks b h.2), ?_⟩
         simp [toks, pieces, unsp, unsp_append]
     | .tern _ c a b, h => by
         rw [Canon] at h
         rw [Renders]
-        refine ⟨_, _, _, slot_wrapP ff pf precElvis c (renders_toks c h.1),
+        refine ⟨_, _, _, slot_wrapP ff pf (precElvis + 1) c (renders_toks c h.1),
           slot_wrapP ff pf precElvis a (renders_toks a h.2.1), slot_plain ff pf b (renders_toks b h.2.2), ?_⟩
         simp [toks, pieces, unsp, unsp_append]
   theorem renders_args : (l : ExprList) → CanonL ff pf l → RendersSeq pf l (unsp (piecesArgs ff l false))
